@@ -33,6 +33,8 @@ def values():
                   "float": 59867.2442234, "time_array": Time([59000.5, 59001.5], format="mjd"),
                   "garbage": "hello", "list": [1, 2]},
         "meta": {"none": None, "dict": {"a": 1, "b": {"c": [1, 2]}}, "empty": {}, "pairs": [("a", 1)], "int": 5,
+                 "mappingproxy": __import__("types").MappingProxyType({"a": 1, "b": [1, 2]}),
+                 "ordered": __import__("collections").OrderedDict([("z", 1), ("a", 2)]),
                  "string": "ab", "list_ints": [1, 2, 3]},
         "align": {"bottom": "bottom", "center": "center", "top": "top", "middle": "middle", "none": None, "one": 1,
                   "upper": "TOP"},
@@ -49,16 +51,24 @@ def make_data(shape, dtype, dask):
         a = np.empty(shape, dtype=object)
         a[...] = 1
     else:
-        a = (np.arange(n) % 5 + 1).reshape(shape).astype(dtype)
+        npdt = {"bf4": ">f4", "bf8": ">f8", "bc8": ">c8", "bc16": ">c16"}.get(dtype, dtype)
+        a = (np.arange(n) % 5 + 1).reshape(shape).astype(npdt)
     if dask and dtype not in ("str", "object") and len(shape) > 0:
         return da.from_array(a, chunks=tuple(max(1, s) for s in shape))
     return a
 
 
+def _fresh_meta(m):
+    import types
+    if isinstance(m, types.MappingProxyType):
+        return types.MappingProxyType(copy.deepcopy(dict(m)))
+    return copy.deepcopy(m)
+
+
 def kwargs_for(a, V):
     import common
     kw = {"sample_rate": V["rate"][a["rate"]], "start_time": V["start"][a["start"]],
-          "meta": copy.deepcopy(V["meta"][a["meta"]])}
+          "meta": _fresh_meta(V["meta"][a["meta"]])}
     c = a["cls"]
     if c != "Signal":
         kw["center_freq"] = V["cf"][a["cf"]]
@@ -98,7 +108,9 @@ def attrs_equal(x, y, what):
                 bad.append("%s: %s %r != %r" % (what, at, getattr(y, at, "missing"), getattr(x, at, "missing")))
     if x.meta != y.meta:
         bad.append("%s: meta %r != %r" % (what, y.meta, x.meta))
-    if x.shape != y.shape or x.dtype != y.dtype:
+    # byte order is a property of the container, not of the values (NumPy itself normalises it when it
+    # pickles some arrays): dtypes are compared modulo byte order
+    if x.shape != y.shape or x.dtype.newbyteorder("=") != y.dtype.newbyteorder("="):
         bad.append("%s: shape/dtype %r %r != %r %r" % (what, y.shape, y.dtype, x.shape, x.dtype))
     elif not np.array_equal(common.materialise(x), common.materialise(y)):
         bad.append("%s: data differ" % what)
@@ -142,7 +154,8 @@ def check_case(case, V, dask, chk, catalog, setters=True):
     if expect != "ok":
         return out, True
     # attributes are what was given
-    if a["dtype"] not in ("str", "object") and s.dtype != np.dtype(ob["dtype"]):
+    spec_dt = {"bf4": ">f4", "bf8": ">f8", "bc8": ">c8", "bc16": ">c16"}.get(ob["dtype"], ob["dtype"])
+    if a["dtype"] not in ("str", "object") and s.dtype != np.dtype(spec_dt):
         out.append(("construct:dtype", "%s: dtype %s, spec says %s" % (desc, s.dtype, ob["dtype"])))
     if tuple(s.shape) != tuple(a["shape"]):
         out.append(("construct:shape", "%s: shape %s" % (desc, s.shape)))
@@ -203,7 +216,7 @@ def check_case(case, V, dask, chk, catalog, setters=True):
             t = type(s).like(s)
             before = common.snapshot(t)
             try:
-                setattr(t, attr, copy.deepcopy(V["rate" if f == "cbw" else f][k]))
+                setattr(t, attr, _fresh_meta(V["rate" if f == "cbw" else f][k]))
                 e2 = None
             except Exception as e:  # noqa
                 e2 = e
